@@ -217,13 +217,32 @@ func sequences(c *rig.Ctx) {
 				}
 				// while the frame is drawn the guest may store to the read-only LY (nothing in
 				// the scene changes by that)
-				k1 := r.Intn(lcdref.FrameLen)
-				tick(k1)
-				if r.Chance(1, 2) {
-					m.Mem.Write(0xff44, r.U8())
-					c.Count("sequence_ly_stores_mid_frame", 1)
+				// (likewise to LYC and STAT, and the present value again to LCDC)
+				done := 0
+				for n := r.Intn(5); n > 0; n-- {
+					k1 := r.Intn(lcdref.FrameLen - done)
+					if r.Chance(1, 3) {
+						abs := ((done+k1)/lcdref.LineLen)*lcdref.LineLen + lcdref.LineLen - 1 - r.Intn(3) // the last cycles of a line
+						if abs >= done && abs < lcdref.FrameLen {
+							k1 = abs - done
+						}
+					}
+					tick(k1)
+					done += k1
+					switch r.Intn(4) {
+					case 0:
+						m.Mem.Write(0xff44, r.U8())
+						c.Count("sequence_ly_stores_mid_frame", 1)
+					case 1:
+						m.Mem.Write(0xff40, s.lcdc)
+						c.Count("sequence_lcdc_same_value_stores_mid_frame", 1)
+					case 2:
+						m.Mem.Write(0xff45, r.U8())
+					case 3:
+						m.Mem.Write(0xff41, r.U8())
+					}
 				}
-				tick(lcdref.FrameLen - k1)
+				tick(lcdref.FrameLen - done)
 			}
 			if !compareFrame(c, m, s, fmt.Sprintf("sequence %d, scene %d (after %d stores in the vertical blank):", i, st+1, len(ws))) {
 				return
